@@ -370,7 +370,7 @@ struct MemWorld : World
           o.a[1] = (int64_t)r.below(16); // address class
           o.a[3] = (int64_t)r.below((uint64_t)size);
           o.a[4] = (int64_t)r.below(3); // pointee type of the raw pointer: char / int / double
-          o.a[5] = (int64_t)r.below(4); // bit0: destination already holds a pointer; bit1: destination cell lives in another sandbox
+          o.a[5] = (int64_t)r.below(16); // bit0: destination already holds a pointer; bit1: destination cell lives in another sandbox; bits 2+3 both set: pointer to a derived class given for a second-base pointer
           break;
         case P_ADD:
         case P_SUB:
@@ -1175,8 +1175,68 @@ struct MemWorld : World
         C->violate("C02", std::string("destination_changed_by_refused_assignment@") + opn, "guest cell %llu -> %llu", (unsigned long long)prev, (unsigned long long)now);
     }
   }
+  // A raw pointer to a derived object given where a pointer to its SECOND base is stored: the conversion moves the
+  // address (by 4 here).  Whatever ends up stored (the statement does not say which of the two addresses) must lie
+  // inside the sandbox, or the call must abort.
+  struct CB1
+  {
+    int a;
+  };
+  struct CB2
+  {
+    int b;
+  };
+  struct CD : CB1, CB2
+  {};
+  void do_c02_derived(const Op& op)
+  {
+    int s = pick_sbx(op.a[0]);
+    SbxState& st = S[(size_t)s];
+    if (st.state != 1)
+      return;
+    // the derived object starts k bytes before the end of the region (k = 4: its second base lies outside), or somewhere inside
+    unsigned sel = (unsigned)((uint64_t)op.a[3] % 4);
+    uintptr_t addr = sel == 0 ? st.base() + st.size() - 4 : sel == 1 ? st.base() + st.size() - 8 : st.base() + (((uint64_t)op.a[3] >> 2) % (st.size() - 16) & ~(uint64_t)3);
+    CD* raw = reinterpret_cast<CD*>(addr);
+    uintptr_t conv = addr + 4;
+    auto in = [&](uintptr_t a) { return a >= st.base() && a - st.base() < st.size(); };
+    const char* opn = kKind[op.kind];
+    C->probe("raw_pointer_converted_to_second_base_class");
+    if (op.kind == C_ASSIGN_V) {
+      auto cell = rlbox::sandbox_reinterpret_cast<CB2**>(st.pcell);
+      uint32_t celloff = (uint32_t)((uintptr_t)st.pcell.UNSAFE_unverified() - st.base());
+      Outcome o = attempt([&] { (*cell).assign_raw_pointer(*st.sb, raw); });
+      PT now;
+      memcpy(&now, st.impl()->gptr(celloff), sizeof now);
+      C->ev("assign_raw volatile<second base> sel %u -> %s", sel, oname(o));
+      if (o == OK && !(now == (PT)(addr - st.base()) || (now == (PT)(conv - st.base()) && in(conv))))
+        C->violate("C02", std::string(now == (PT)(conv - st.base()) ? "foreign_address_accepted@" : "stored_representation_wrong@") + opn, "derived object %lld bytes before the end of the region: cell holds %llu", (long long)(st.base() + st.size() - addr), (unsigned long long)now);
+      else if (o != OK && in(addr) && in(conv))
+        C->violate("C02", std::string("in_sandbox_address_refused@") + opn, "derived object wholly inside");
+    } else {
+      rlbox::tainted<CB2*, Sbx> t = nullptr;
+      Outcome o = attempt([&] {
+        if (op.kind == C_ACCEPT)
+          t = st.sb->UNSAFE_accept_pointer(static_cast<CB2*>(raw)); // the application converts itself: the converted address is what is given
+        else
+          t.assign_raw_pointer(*st.sb, raw);
+      });
+      uintptr_t now = (uintptr_t)t.UNSAFE_unverified();
+      C->ev("assign_raw tainted<second base> sel %u -> %s", sel, oname(o));
+      if (o == OK && !((now == addr && op.kind != C_ACCEPT) || (now == conv && in(conv))))
+        C->violate("C02", std::string(now == conv ? "foreign_address_accepted@" : "accepted_value_differs@") + opn, "derived object %lld bytes before the end of the region: the tainted pointer is %lld bytes before the end", (long long)(st.base() + st.size() - addr), (long long)(st.base() + st.size() - now));
+      else if (o != OK && in(addr) && in(conv))
+        C->violate("C02", std::string("in_sandbox_address_refused@") + opn, "derived object wholly inside");
+      else if (o != OK && now != 0)
+        C->violate("C02", std::string("destination_changed_by_refused_assignment@") + opn, "second base");
+    }
+  }
   void do_c02(const Op& op)
   {
+    if ((op.a[5] & 12) == 12) {
+      do_c02_derived(op);
+      return;
+    }
     switch ((int)((uint64_t)op.a[4] % 3)) {
       case 0:
         do_c02_t<char>(op);
@@ -1413,6 +1473,23 @@ struct MemWorld : World
           TP<int> e = n.ptrs[idx];
           check_load(s, off + (uint32_t)offsetof(GNode, ptrs) + (uint32_t)sizeof(PT) * (uint32_t)idx, (uintptr_t)e.UNSAFE_unverified(), opn);
           push<int>(s, e, opn);
+        }
+      } else if (op.a[1] & 4) {
+        // through a pointer to a const struct (and a const copy of the whole struct)
+        rlbox::tainted<const SimNode*, Sbx> ct = rlbox::sandbox_const_cast<const SimNode*>(t);
+        C->probe("struct_accessed_through_pointer_to_const");
+        if (f == 0) {
+          rlbox::tainted<int*, Sbx> q = ct->data;
+          check_load(s, off + (uint32_t)offsetof(GNode, data), (uintptr_t)q.UNSAFE_unverified(), opn);
+          push<int>(s, q, opn);
+        } else if (f == 1) {
+          rlbox::tainted<SimNode*, Sbx> q = ct->next;
+          check_load(s, off + (uint32_t)offsetof(GNode, next), (uintptr_t)q.UNSAFE_unverified(), opn);
+          push<SimNode>(s, q, opn);
+        } else {
+          rlbox::tainted<int*, Sbx> q = ct->ptrs[idx];
+          check_load(s, off + (uint32_t)offsetof(GNode, ptrs) + (uint32_t)sizeof(PT) * (uint32_t)idx, (uintptr_t)q.UNSAFE_unverified(), opn);
+          push<int>(s, q, opn);
         }
       } else {
         if (f == 0) {
@@ -1964,6 +2041,18 @@ struct MemWorld : World
     if (back != bits)
       C->violate("C04", "wrong_representation@function_pointer_cell", "guest stored function index %llu, round trip gives %llu", (unsigned long long)bits, (unsigned long long)back);
     C->probe("function_pointer_round_trip");
+    // ... and a tainted function pointer stored back into (another) cell keeps its representation, null included
+    if (!C->stop) {
+      auto cell2 = rlbox::sandbox_reinterpret_cast<Fn*>(st.scratch);
+      uint32_t cell2off = (uint32_t)((uintptr_t)st.scratch.UNSAFE_unverified() - st.base());
+      PT junk = (PT)0x7777;
+      memcpy(st.impl()->gptr(cell2off), &junk, sizeof junk);
+      Outcome o3 = attempt([&] { *cell2 = f; });
+      PT got2 = 0;
+      memcpy(&got2, st.impl()->gptr(cell2off), sizeof got2);
+      if (o3 != OK || got2 != bits)
+        C->violate("C04", std::string(bits == 0 ? "null_not_preserved@" : "wrong_representation@") + "function_pointer_cell", "tainted function pointer with representation %llu stored into a cell: cell holds %llu (%s)", (unsigned long long)bits, (unsigned long long)got2, oname(o3));
+    }
   }
 
   // Static arrays long enough that an index of a narrow type can be negative, or wrap, before it reaches the extent.
